@@ -224,8 +224,12 @@ def snapshot(root):
     for dp, dn, fn in os.walk(root):
         for d in dn:
             dirs.add(os.path.relpath(os.path.join(dp, d), root))
-        for f in fn:
+        for f in fn + [d for d in dn if os.path.islink(os.path.join(dp, d))]:
             p = os.path.join(dp, f)
+            if os.path.islink(p):
+                # symbolic links are recorded, never followed; they are no regular files of the model
+                files[os.path.relpath(p, root)] = (-1, "link:" + os.readlink(p), None)
+                continue
             with open(p, "rb") as h:
                 b = h.read()
             files[os.path.relpath(p, root)] = (len(b), hashlib.sha256(b).hexdigest(), b)
@@ -260,6 +264,8 @@ def fs_view(snap, out_prefix, extra):
     out = []
     pre = out_prefix + os.sep
     for n, v in files.items():
+        if v[2] is None:
+            continue
         if n.startswith(pre) and os.sep not in n[len(pre):]:
             out.append([n[len(pre):], v[2].decode("utf-8")])
         elif n in extra:
@@ -405,6 +411,8 @@ def setup_dirs(sc, case_dir):
             f.write(content.encode("utf-8"))
     for name in sc.get("predirs", []):
         os.makedirs(os.path.join(out_dir, name), exist_ok=True)
+    for name, dest in sc.get("links", {}).items():
+        os.symlink(dest, os.path.join(out_dir, name))      # relative destination, possibly dangling
     main_in = write_inputs(sc, in_dir, out_dir)
     return in_dir, out_dir, main_in
 
@@ -420,7 +428,8 @@ def reference_plan(parser, cfg, sc, case_dir, out_dir):
     fmt = sc.get("format") or "parser_mode"
     fmt_ok = fmt in VALID_FORMATS
     multi = sc.get("multifile") is not False
-    inp = {"path": sc["target"], "overwrite": sc.get("overwrite"), "multifile": sc.get("multifile"), "format_ok": fmt_ok,
+    # a target that is a symbolic link stands for the file it resolves to (open/isfile/realpath(path/..) all follow it)
+    inp = {"path": sc.get("links", {}).get(sc["target"], sc["target"]), "overwrite": sc.get("overwrite"), "multifile": sc.get("multifile"), "format_ok": fmt_ok,
            "validate_ok": True, "subs": [], "wr": {"open": True, "write": True}}
     extra = {}
     if not fmt_ok:
@@ -762,8 +771,17 @@ def gen_scenario(rng):
     for n in NAMES:
         if rng.random() < 0.4:
             pre[n] = gen_content(rng)
-    if sc["overwrite"] is not True and sc["target"] in pre and rng.random() < 0.7:
-        del pre[sc["target"]]          # keep the immediate refusal of the target a minority
+    sc["links"] = {}
+    if sc["target"] == "main.yaml" and rng.random() < 0.15:
+        # the target is a symbolic link: to a file next to it (existing or not yet: dangling) or into a directory that is gone
+        dest = rng.choice(["actual.yaml", "actual.yaml", "gone/main.yaml"])
+        sc["links"]["main.yaml"] = dest
+        pre.pop("main.yaml", None)
+        if dest == "actual.yaml" and rng.random() < 0.5:
+            pre["actual.yaml"] = gen_content(rng)
+    resolved = sc["links"].get(sc["target"], sc["target"])
+    if sc["overwrite"] is not True and resolved in pre and rng.random() < 0.7:
+        del pre[resolved]          # keep the immediate refusal of the target a minority
     sc["pre"] = pre
     sc["predirs"] = []
     if sc["target"] == "adir":
@@ -785,9 +803,10 @@ def early_reject(sc):
     """save is refused before it looks at the configuration (static)"""
     if sc.get("format") not in (None,) + VALID_FORMATS:
         return True
-    if sc["target"] in ("nodir/main.yaml", "adir"):
+    resolved = sc.get("links", {}).get(sc["target"], sc["target"])
+    if sc["target"] in ("nodir/main.yaml", "adir") or resolved == "gone/main.yaml":
         return True
-    exists = sc["target"] in sc.get("pre", {}) or (sc.get("same_dir") and sc["target"] in input_names(sc))
+    exists = resolved in sc.get("pre", {}) or (sc.get("same_dir") and sc["target"] in input_names(sc))
     return exists and sc.get("overwrite") is not True
 
 
@@ -849,6 +868,7 @@ def process(ctx: Ctx, cases, root, origin, readonly=False):
         ctx.hist("fault", fault["kind"])
         ctx.hist("subfiles", len(mi["subs"]))
         ctx.hist("target_spelling", "file://" if sc.get("uri") else "plain")
+        ctx.hist("target_kind", "symlink->" + sc["links"][sc["target"]] if sc["target"] in sc.get("links", {}) else "name")
         if res["outcome"] != "ok":
             fa = failing_slot(mi)
             ctx.hist("failure_position", "before-first-write" if not fa else ("after-%d-subfile-writes" % min(fa, 3)))
@@ -882,14 +902,14 @@ def run(ctx: Ctx):
     repo_python_path()
     ctx.rule = ("scenario = parser with 0-3 ActionParser sub-configs (optionally nested, each loaded from its own sub-file or inline), optional dict, "
                 "jsonschema, jsonnet (__orig__) and save_path_content sub-files, values, format, multifile in {omitted,True,False}, overwrite in "
-                "{omitted,False,True}, target (new, existing, missing parent, a directory, parent not writeable; spelled as a plain path or as a file:// URI), pre-existing files of arbitrary content, "
+                "{omitted,False,True}, target (new, existing, missing parent, a directory, parent not writeable, a symbolic link to an existing / not yet existing sibling or into a missing directory; spelled as a plain path or as a file:// URI), pre-existing files of arbitrary content, "
                 "inputs next to or away from the target; for every scenario a failure is injected at EACH step (invalid value at each typed key, "
                 "unserialisable value at each Any key, Enum at each enum key, k-th open fails, k-th write fails) plus the fault-free run; each "
                 "(scenario, fault) runs the real parser.save in a temp dir and the Lean model; non-trivial = output directory holds >=1 pre-existing "
                 "file and save gets past the format/path checks; distinct by JSON of (scenario, fault)")
     ctx.assumptions = [
         "validation / serialisation outcomes and the dump texts are inputs of the model; the reference obtains them from parser.validate, parser.dump and dump_using_format on a separately loaded copy",
-        "local file system only (plain paths and file:// URIs of local files; no remote fsspec/URL targets), no symlinks, nobody else writes to the directory during save",
+        "local file system only (plain paths and file:// URIs of local files; no remote fsspec/URL targets); symbolic links only as the main target (to a sibling file, dangling, or into a missing directory), which then stands for the file it resolves to; nobody else writes to the directory during save",
         "FIFO targets are outside the model and not exercised: an existing FIFO passes Path(mode='fc') (fix 5706b13), is not refused by check_overwrite (os.path.isfile) and open(fifo,'w') blocks until a reader appears; a FIFO stores no content; existing non-files in the scenarios are directories",
         "an OS failure in the middle of write() after a successful open (class io) is outside the property; the model and the harness still track it",
         "save_path_content copies go through text mode: sources are UTF-8 text without carriage returns (newline translation is outside the model)",
